@@ -413,6 +413,9 @@ pub fn format_function_args(
                 && !parentheses.tokens().0.has_leading_comments(CommentSearch::All)
                 && !parentheses.tokens().0.has_trailing_comments(CommentSearch::All)
                 && !parentheses.tokens().1.has_leading_comments(CommentSearch::All)
+                // A line comment behind the argument would comment out whatever follows the call once the
+                // closing parentheses, which stands on the next line, is gone
+                && !arguments.iter().next().unwrap().has_trailing_comments(CommentSearch::Single)
             {
                 let argument = arguments.iter().next().unwrap();
 
